@@ -81,6 +81,21 @@ Proof.
   destruct (leg_token l) as [|x r]; cbn; rewrite ?len_cons_nz; reflexivity.
 Qed.
 
+(* ... and the provider afterwards: the security context has consumed that leg (self.ctx is written back into self) *)
+Lemma flow_auth_step_state fuel ap tok pv :
+  pv_type pv = ap_provider ap ->
+  run_self W fuel k_flow_auth_step [VO (OAuthP ap); optbv tok]
+  = match ap_legs ap with
+    | [] => Raise KeyError
+    | l :: ls => Ok (VO (OSt (step_trailer pv (leg_token l))),
+                     Some (VO (OAuthP {| ap_provider := ap_provider ap; ap_legs := ls; ap_complete := leg_complete l |})))
+    end.
+Proof.
+  intro Hpv. unfold run_self, step_trailer, k_onl_step_level, k_onl_step_pad, k_onl_step_ctx. rewrite Hpv.
+  destruct (ap_legs ap) as [|l ls] eqn:El; cbn; rewrite El; cbn; [reflexivity|].
+  destruct (leg_token l) as [|x r]; cbn; rewrite ?len_cons_nz; reflexivity.
+Qed.
+
 Lemma flow_auth_complete fuel ap :
   run W fuel k_flow_auth_complete [VO (OAuthP ap)] = Ok (vb (ap_complete ap)).
 Proof. reflexivity. Qed.
